@@ -14,6 +14,7 @@
 #include <unordered_map>
 #include "soplex/spxdefines.h"
 #include "soplex/basevectors.h"
+#include "soplex/didxset.h"
 
 namespace verif_ctl
 {
@@ -201,5 +202,63 @@ int descending_skips_zero(const int* a, int size)
       sum += a[j];
 
    return sum;
+}
+// generic shape rules (rules/shapes.py): one positive control per shape
+// S1: a comparison with infinity that is always true
+bool infinity_tautology(double lower)
+{
+   return lower <= double(soplex::infinity);
+}
+
+// S2: the result of a "position or -1" function tested with > 0: position 0 counts as not found
+bool sentinel_excludes_zero(const soplex::DIdxSet& set, int i)
+{
+   return set.pos(i) > 0;
+}
+
+// S2 (arrays): a permutation entry tested with > 0
+int perm_excludes_zero(const int* perm, int n)
+{
+   int kept = 0;
+
+   for(int i = 0; i < n; ++i)
+      if(perm[i] > 0)
+         ++kept;
+
+   return kept;
+}
+
+// S5: a loop over the positions of a sparse vector that subscripts the vector by index with the position
+double position_used_as_index(const soplex::SVectorBase<double>& vec)
+{
+   double sum = 0.0;
+
+   for(int i = 0; i < vec.size(); ++i)
+      sum += vec[i];
+
+   return sum;
+}
+
+// S6: an else-if chain whose conditions are sign mirror images and whose second arm mixes the two sides
+double mirror_arm_mixed(double val, double sLo, double sUp)
+{
+   double slackVal = 0.0;
+
+   if(val > 0)
+   {
+      if(sUp >= double(soplex::infinity))
+         return 1.0;
+
+      slackVal = sUp;
+   }
+   else if(val < 0)
+   {
+      if(sUp >= double(soplex::infinity))
+         return 1.0;
+
+      slackVal = sLo;
+   }
+
+   return slackVal;
 }
 }
